@@ -238,6 +238,48 @@ def spec_format_literal(sx, scope, obj):
 
 C.use_as_model("cohdl._compiler.backend.vhdl._vhdl_repr:VhdlScope.format_literal", spec_format_literal)
 
+# ---- format_vhdl_cast: reading a whole object through a typed view (.unsigned / .signed / .bitvector) -------------------------
+# The operand text names the root object, so it has the root's DECLARED VHDL type; the produced text must have the VHDL
+# type of the VIEW with the same bits (numeric_std type conversions between closely related array types keep the bits).
+def vhdl_cast_shape(root_kind, view_kind):
+    def make(env):
+        root = tq(vec(root_kind, env["cw"], env["cbits"]))
+        root.fields["type"] = root.fields["_value"].cls
+        if view_kind is root_kind:
+            return root
+        v = tq(vec(view_kind, env["cw"], env["cbits"]), root)
+        v.fields["type"] = v.fields["_value"].cls
+        return v
+
+    return Built(["cw", "cbits"], make, lambda asg: "None", lambda asg: None, lambda env: sym.And(env["cw"] >= 1, env["cbits"] >= 0, env["cbits"] < P2(env["cw"])))
+
+
+def vhdl_cast_spec(root_kind, view_kind):
+    def spec(sx, scope, value, value_str):
+        prim = value.fields["_value"]
+        operand = VX.VVal(VKIND[root_kind], width(prim), bits(prim))  # the text of the root object
+
+        def holds(text):
+            try:
+                v = VX.evaluate(text if isinstance(text, SFmt) else SFmt([text]), operand, sx, literal_vval)
+            except VX.TypeError_:
+                return False
+            if v.kind != VKIND[view_kind]:
+                return False
+            return sym.And(sym.eq(v.width, width(prim)), sym.eq(v.bits, bits(prim)))
+
+        return C.Pred(holds, f"text : {VKIND[view_kind]} with the bits of the object")
+
+    return spec
+
+
+con = contract("cohdl._compiler.backend.vhdl._vhdl_repr:VhdlScope.format_vhdl_cast", PROPS + ("C06", "C02"))
+for root_kind in (Unsigned, Signed, BitVector):
+    for view_kind in (Unsigned, Signed, BitVector):
+        c = Case(f"{KNAME[view_kind]}-view-of-{KNAME[root_kind]}", [SCOPE, vhdl_cast_shape(root_kind, view_kind), OPND], vhdl_cast_spec(root_kind, view_kind))
+        c.native = False
+        con.cases.append(c)
+
 con = contract("cohdl._compiler.backend.vhdl._vhdl_repr:VhdlScope.format_cast", PROPS)
 ALLOW_REJECT = True
 
